@@ -3,6 +3,11 @@
    per unit, the incoming RTP packets, the delivered payload, the RTP packets handed to writeRTSP and
    what the format's real rtpDecoder returns for each of them.
 
+   Since b2-c23 a case is the whole LIFE of one format of one Stream (CLife): the steps are sub stream
+   initialisations (NewSub: the real subStreamFormat.initialize + initialize2 on the shared streamFormat, with the
+   per-format state observed afterwards) and units, in the order they happened - on the fixture's streamFormat or on a
+   real always-available Stream (Stream.Initialize / SubStream.Initialize / StartOfflineSubStream, observed by a Reader).
+
    mismatch  : the modelled formats - H.264 (fmt 0), H.265 (1), Opus (8), G.711 (13), LPCM (14): the glue model +
                the packetizer model must produce exactly the observed packets (or the observed error / panic),
                and the decoder model exactly the observed decoder results.
